@@ -62,6 +62,13 @@ type Obligation struct {
 	Timeout int
 }
 
+type inlineRet struct {
+	reach   string
+	results []Val
+	heap    Heap
+	ghost   map[string]Val
+}
+
 type unsupported struct{ msg string }
 
 func (c *FnCtx) unsup(f string, a ...any) {
@@ -112,6 +119,7 @@ type FnCtx struct {
 	loopDec  map[*ssa.BasicBlock]Val
 	usedContracts map[string]bool
 	usedPure map[string]bool
+	usedInlined map[string]bool
 	havocCalls map[string]int
 	watch    map[string]bool
 	retCountTotal int
@@ -119,6 +127,10 @@ type FnCtx struct {
 	goSeen   bool
 	usedLemmas []string
 	sortWitness [][2]string
+	entryReach string
+	outerBlock *ssa.BasicBlock // caller block while executing inlined callee bodies
+	inlineStack []*ssa.Function
+	inlineRets []inlineRet
 	callOrdOf, retOrdOf, storeOrdOf map[ssa.Instruction]int
 	seeds []string
 	termSorts map[string]string
@@ -511,10 +523,10 @@ func (c *FnCtx) idxLt(a, b string) string {
 // setHeap installs a new version of a heap array.
 func (c *FnCtx) setHeap(name, term string) {
 	if c.discover {
-		if c.writes[c.curBlock] == nil {
-			c.writes[c.curBlock] = map[string]bool{}
+		if c.writes[c.wblk()] == nil {
+			c.writes[c.wblk()] = map[string]bool{}
 		}
-		c.writes[c.curBlock][name] = true
+		c.writes[c.wblk()][name] = true
 		return
 	}
 	// name the new version to keep terms small
@@ -536,10 +548,10 @@ func (c *FnCtx) heapSort(name string) string {
 
 func (c *FnCtx) havocHeap(name string) {
 	if c.discover {
-		if c.writes[c.curBlock] == nil {
-			c.writes[c.curBlock] = map[string]bool{}
+		if c.writes[c.wblk()] == nil {
+			c.writes[c.wblk()] = map[string]bool{}
 		}
-		c.writes[c.curBlock][name] = true
+		c.writes[c.wblk()][name] = true
 		return
 	}
 	c.heap[name] = c.fresh(strings.Trim(name, "|"), c.heapSort(name))
@@ -866,9 +878,8 @@ func (c *FnCtx) setRegion(name, reg, arr string) {
 			m[k] = x
 		}
 	}
-	if isAllocConst(reg) {
-		m[reg] = an
-	}
+	// reading back the region just written (same syntactic region term) always yields the new array
+	m[reg] = an
 	c.known2[c.heap[name]] = m
 }
 
@@ -916,4 +927,13 @@ func (c *FnCtx) mergeKnown(merged string, conds []string, versions []string, isE
 		out[k] = n
 	}
 	tbl[merged] = out
+}
+
+// wblk: the block of the function under verification to which heap writes are attributed
+// (writes made by inlined callee bodies belong to the calling block).
+func (c *FnCtx) wblk() *ssa.BasicBlock {
+	if len(c.inlineStack) > 0 && c.outerBlock != nil {
+		return c.outerBlock
+	}
+	return c.curBlock
 }
